@@ -1083,4 +1083,45 @@ class Qcow2Snapshots(Suite):
         return {"cluster_bits": case["active"]["cluster_bits"], "nops": len(case["ops"])}
 
 
-SUITES = {"hdd_chain": HddChain(), "qcow2_chain": Qcow2Chain(), "qcow2_snapshot": Qcow2Snapshots(), "vmdk_delta": VmdkDelta(), "vdi_chain": VdiChain(), "hds_chain": HdsChain(), "vhdx_chain": VhdxChain(), "open_layouts": OpenLayouts()}
+class VdiDifferencing(Suite):
+    """A VDI whose header says 'differencing' (ImageType 4) opened without a parent: the property wants an error, the
+    constructor has no such check (recorded known finding, see DESIGN.md §11.5)."""
+    name = "vdi_differencing"
+
+    def generate(self, rng, tier):
+        out = []
+        for it in (1, 2, 3, 4):
+            c = c05.gen_case(rng, "quick")
+            c["image_type"] = it
+            c["parent_salt"] = None
+            c.pop("reqs", None)
+            out.append(c)
+        return out
+
+    def impl(self, case):
+        from dissect.hypervisor.disk.vdi import VDI
+        fh = c05.SUITES["vdi"].build_files(case)["file"]
+        try:
+            v = VDI(fh)
+            return {"opened": True, "n": len(v.read(512))}
+        except Exception as e:  # noqa: BLE001
+            return {"opened": False, "exc": type(e).__name__}
+
+    def judge(self, case, impl_res, coq_val):
+        if impl_res.get("outcome"):
+            return [Finding("impl_fault", f"implementation {impl_res}", "vdi:open:" + impl_res["outcome"])]
+        if case["image_type"] == 4 and impl_res["opened"]:
+            return [Finding("impl_vs_spec", "differencing VDI (ImageType 4) opened without a parent is served alone instead "
+                            "of raising", "vdi:open:differencing-served-alone")]
+        if case["image_type"] != 4 and not impl_res["opened"]:
+            return [Finding("impl_vs_spec", f"VDI of image type {case['image_type']} refused: {impl_res}", "vdi:open:refused")]
+        return []
+
+    def nontrivial(self, case, impl_res, coq_val):
+        return case["image_type"]
+
+    def dist(self, case):
+        return {"image_type": case["image_type"]}
+
+
+SUITES = {"vdi_differencing": VdiDifferencing(), "hdd_chain": HddChain(), "qcow2_chain": Qcow2Chain(), "qcow2_snapshot": Qcow2Snapshots(), "vmdk_delta": VmdkDelta(), "vdi_chain": VdiChain(), "hds_chain": HdsChain(), "vhdx_chain": VhdxChain(), "open_layouts": OpenLayouts()}
